@@ -1,8 +1,12 @@
 """Shared machinery for C04 / C11: persistence-image cases validated by TraceImage.tla."""
 from fractions import Fraction
 from . import tlc
-from .common import EXACT_EMBS, unfl, run_driver_parallel
+from .common import EXACT_EMBS, Emb, unfl, run_driver_parallel
 from .fix import fix
+
+
+DEC7 = Emb(Fraction(7, 10), 0, False, "0.7*k (no shift)")
+DEC35 = Emb(Fraction(7, 20), 0, False, "0.35*k (no shift)")
 
 
 # linear_ramp parameter sets (low, high, start, end); the last two have NEGATIVE weights (legal: low/high are free real parameters)
@@ -51,6 +55,20 @@ def gen_points(rng, g, n):
 
 def build(rng, e, with_jobs=False):
     g = gen_cfg(rng, prefer_ramp=(e.s == 1 and e.t == 0))     # integer-dtype containers go with this embedding: fractional ramp weights matter there
+    if not e.exact:
+        # decimal scale: the requested ranges must be whole numbers of pixels IN FLOATS as well (quotient at most the intended count: a quotient
+        # like 3.0000000000000004 legitimately gets a fourth pixel -- C12 -- and the grid would not be the one this check assumes)
+        import math
+        def fits(lo, cnt):
+            q = (e.f(lo + cnt * g["ps"]) - e.f(lo)) / float(e.s * g["ps"])
+            return math.ceil(q) == cnt
+        for _ in range(50):
+            if fits(g["b0"], g["rx"]) and (float(e.s * (g["p0"] + g["ry"] * g["ps"])) - float(e.s * g["p0"])) / float(e.s * g["ps"]) <= g["ry"] \
+                    and math.ceil((float(e.s * (g["p0"] + g["ry"] * g["ps"])) - float(e.s * g["p0"])) / float(e.s * g["ps"])) == g["ry"]:
+                break
+            g = gen_cfg(rng)
+        else:
+            e = EXACT_EMBS[0]
     X, Y, Z = gen_points(rng, g, rng.randint(1, 4)), gen_points(rng, g, rng.randint(1, 4)), gen_points(rng, g, rng.randint(1, 3))
     if rng.random() < 0.4:
         Y.append(list(X[0]))          # a point shared by X and Y: the union has a repeated pair
@@ -119,7 +137,9 @@ def to_case(item, r):
 
 def run(ctx, mine, n, njobs_cases):
     rng = ctx.rng
-    embs = [EXACT_EMBS[0], EXACT_EMBS[0], EXACT_EMBS[2], EXACT_EMBS[3], EXACT_EMBS[4], EXACT_EMBS[5]]   # no diagonal shift on the persistence axis: k/4-3 is left out
+    # (no diagonal shift on the persistence axis: k/4-3 is left out)  The decimal scales make range / pixel_size quotients that are NOT exact in
+    # binary (4.2 / 1.4 = 2.9999999999999996): the pixel grid must still be the one the public attributes describe
+    embs = [EXACT_EMBS[0], EXACT_EMBS[0], EXACT_EMBS[2], EXACT_EMBS[3], EXACT_EMBS[4], EXACT_EMBS[5], DEC7, DEC35]
     items = [build(rng, embs[i % len(embs)], with_jobs=(i < njobs_cases)) for i in range(n)]
     validate(ctx, items, mine, "V")
 
@@ -203,7 +223,7 @@ def model_and_replay(ctx, mine, quick):
     for gi, geom in enumerate(ACC_GEOMS if not quick else ACC_GEOMS[:2]):
         dump = os.path.join(mktempdir(prefix="accdump_"), "dump.json")
         cst = dict(geom, MaxC=2 if gi != 1 else 3, MaxPts=2, MaxDgms=2 if (gi == 0 and not (mine == "C04" and quick)) else 1)
-        r = tlc.run_tlc("ImageAccumulate", workers=1, env={"DUMP_FILE": dump}, init="DumpInit", nxt="Next", constants=cst, heap="6g", timeout=3600)
+        r = tlc.run_tlc("ImageAccumulate", workers=1, env={"DUMP_FILE": dump}, init="DumpInit", nxt="DumpNext", constants=cst, heap="6g", timeout=3600)
         if r["error"] or not os.path.exists(dump):
             ctx.machinery_errors.append("ImageAccumulate dump failed:\n" + r["out"][-1500:]); return
         dumped = json.load(open(dump)); os.remove(dump)
@@ -259,6 +279,6 @@ def replay(ctx, rec, mine):
     if rec["case"].get("kind") == "accumulate":
         return replay_accumulate(ctx, rec, mine)
     c = rec["case"]
-    e = next(x for x in EXACT_EMBS if x.name == c["emb"])
+    e = next(x for x in EXACT_EMBS + [DEC7, DEC35] if x.name == c["emb"])
     it = dict(g=c["g"], dgms=c["dgms"], skews=c.get("skews", [1] * len(c["dgms"])), names=c.get("names", [str(i) for i in range(len(c["dgms"]))]), job=c["job"], emb=e)
     validate(ctx, [it], mine, "replay", nproc=1)
